@@ -101,8 +101,12 @@ func Schemas(thorough bool) []string {
 	}
 	// depth 4 spine: defaults only at the bottom, with/without required on the way
 	for _, rq := range reqs[:2] {
-		for _, d := range leafDefaults[1:] {
-			add(node("", "", propsOf(node("", rq, propsOf(node("", rq, propsOf(node(d, "", "", ""), ""), ""), ""), ""), ""), ""))
+		for _, rq2 := range reqs[:2] {
+			for _, d := range leafDefaults[1:] {
+				add(node("", "", propsOf(node("", rq, propsOf(node("", rq2, propsOf(node(d, "", "", ""), ""), ""), ""), ""), ""), ""))
+				// a sibling default next to the spine, at the top and in the middle
+				add(node("", "", propsOf(node("", rq, propsOf(node("", rq2, propsOf(node(d, "", "", ""), ""), ""), node(`1`, "", "", "")), ""), node(`"s"`, "", "", "")), ""))
+			}
 		}
 	}
 	return out
